@@ -104,14 +104,16 @@ def run_split_case(ctx, idx, rng, tmp):
         from vmon.gen import h5layout
         h5layout.add_raw_logs(pin, rng)
         ctx.count("inputs_with_raw_h5py_logs")
+    # the two options are independent in the Python interface
     skip = bool(rng.random() < 0.5)
-    case = {"kind": "split", "n": n, "split_events": se, "skip_empty": skip,
+    skip_f = skip if rng.random() < 0.5 else (not skip)
+    case = {"kind": "split", "n": n, "split_events": se, "skip_empty": [skip, skip_f],
             "zero_first": zero_first, "zero_last": zero_last, "zero_inside": zero_mid, "model": gd.describe(model)}
     outdir = tmp / "parts"
     outdir.mkdir()
     try:
         parts = cli.split(path_in=pin, path_out=outdir, split_events=se,
-                          skip_initial_empty_image=skip, skip_final_empty_image=skip,
+                          skip_initial_empty_image=skip, skip_final_empty_image=skip_f,
                           ret_out_paths=True)
         ctx.ev("task_no_exception")
     except Exception as exc:
@@ -155,7 +157,7 @@ def run_split_case(ctx, idx, rng, tmp):
             keep = np.ones(n, bool)
             if skip and zero_first:
                 keep[0] = False
-            if skip and zero_last:
+            if skip_f and zero_last:
                 keep[-1] = False
             idx_keep = np.flatnonzero(keep)
             from vmon.monitors.export import expected_feature
